@@ -151,7 +151,7 @@ def run(tier, replay=None):
     else:
         import glob
         hs = [[l for l in open(f).read().split("\n") if l.strip() and not l.startswith("#")] for f in sorted(glob.glob(os.path.join(common.VERIF, "corpus", PROP, "*.api")))]
-        hs += [gen_history(rng, 40) for _ in range(12 if tier == "quick" else 900)]
+        hs += [gen_history(rng, 40) for _ in range(50 if tier == "quick" else 900)]
     ops = [o for h in hs for o in h]
     impl, _ = common.run_impl("api", "\n".join(ops) + "\n", stateless=True, timeout=1200)
     mops = [o for o in ops if o.split()[0] in MODEL_OPS]
